@@ -36,9 +36,10 @@ RULES = {
     "R9": "the derived screen attributes this property's code relies on (size) have their documented definitions in ScreenBase and every override",
     "R10": "the sample container the code indexes (ThetaHolder.add_theta / get_theta) refuses out-of-range indices and returns the i-th added sample (C10.R3 run here)",
     "R11": "constructor options are live: every attribute the constructor binds from a parameter is read by a method of the class",
+    "R13": "the weight of a triple is the sum of exactly its three pairwise distances: log w = distance_factor * log(D[i,j] + D[j,k] + D[i,k]), nothing added inside the logarithm (a triple of identical samples has weight 0)",
     "R12": "the distance matrix handed to the kernel is the recorded one: to_dense writes every stored value at its own (row, col) and its mirror, refusing incomplete matrices (C07.R3 run here)",
 }
-MIN = {"R1": 1, "R2": 7, "R3": 2, "R4": 2, "R5": 3, "R6": 3, "R7": 3, "R8": 5, "R9": 1, "R10": 3, "R11": 1, "R12": 4}
+MIN = {"R1": 1, "R2": 7, "R3": 2, "R4": 2, "R5": 3, "R6": 3, "R7": 3, "R8": 5, "R9": 1, "R10": 3, "R11": 1, "R12": 4, "R13": 1}
 TRUSTED = ["distance matrix is symmetric (C07.R3)", "scipy logsumexp(axis=1) reduces the triple axis only", "numpy broadcasting"]
 TECHNIQUE = "polynomial normal form with permutation (S3) symmetry lint; def-use checks of the padding protocol; axis-role lint"
 LEVEL_TEXT = ("Invariance under relabelling of the posterior samples, independence from co-scored plates (axis isolation + "
@@ -528,7 +529,15 @@ def r5(ctx):
         def unpad(e):
             e1 = inline(e, lenv, depth=1)
             if isinstance(e1, ast.Call) and U(e1.func) == "pad_ragged_arrays_to_dense_array":
-                return inline(e1.args[0], lenv, depth=1)
+                e1 = e1.args[0]
+                for _ in range(3):
+                    if isinstance(e1, ast.Name):
+                        e1 = inline(e1, lenv, depth=1)
+                    # list(L) of a list: the same items in the same order
+                    if isinstance(e1, ast.Call) and U(e1.func) == "list" and len(e1.args) == 1 and not e1.keywords:
+                        e1 = e1.args[0]
+                    else:
+                        break
             return e1
         means = unpad(kw.get("predictions"))
         varis = unpad(kw.get("variances"))
@@ -652,7 +661,32 @@ def r_br12(ctx):
     ctx.borrow(C07.r3, "R12")
 
 
-RULE_FUNCS = [r1, r2, r3, r4, r5, r6, r7, r8, r_derived, r_holder, r_options, r_br12]
+def r13(ctx):
+    """`each triple weighted by the sum of its three pairwise distances`: the only logarithm taken of distances has the argument
+    D12 + D23 + D13 - compared as a polynomial over the role atoms, so the spelling and the order of the terms do not matter, while any
+    extra term (an epsilon `to avoid log(0)`) or a missing pair does: a triple of pairwise identical samples must weigh exactly 0."""
+    f = ctx.fn(KERNEL)
+    pv, pred, mask, dist, env = kernel_names(f)
+    N = Norm(atomizer=kernel_atomizer((pv, pred, mask, dist), f, None), strict=False)
+    logs = [c for c in calls(f.node) if call_name(c) in ("np.log", "np.log1p", "math.log", "np.log2", "np.log10") and c.args and dist in names_in(inline(c.args[0], env))]
+    ctx.need(len(logs) >= 1, f"{f.site()}: no logarithm of distances found")
+    want = Poly()
+    for a, b in (("idx1", "idx2"), ("idx2", "idx3"), ("idx1", "idx3")):
+        want = want + Poly.atom(("D",) + tuple(sorted((a, b))))
+    bad = []
+    for c in logs:
+        try:
+            got = N.n(inline(c.args[0], env))
+        except AnalysisError:
+            raise
+        if call_name(c) != "np.log" or got != want:
+            bad.append(U(c)[:110])
+    ctx.check("R13", f"{f.site()}::triple-weight", not bad, "log w = distance_factor * log(D12 + D23 + D13)",
+              f"the triple weight is computed from `{bad[0] if bad else ''}`, whose argument is not exactly D12 + D23 + D13: a triple of pairwise identical samples no longer has weight 0 "
+              f"(or a pair is missing from the weight)")
+
+
+RULE_FUNCS = [r1, r2, r3, r4, r5, r6, r7, r8, r_derived, r_holder, r_options, r_br12, r13]
 
 
 def run(ctx):
